@@ -12,33 +12,20 @@ Check C14_yaml_plain_ok_decided :
   forall s, yaml_plain_okb s = true <-> yaml_plain_ok s.
 
 Check C14_yaml_bare_sound :
-  forall s, bare_safe s = true -> known_yaml_bare s = false -> yaml_plain_ok s.
-
-Check C14_yaml_bare_refuted_octal :
-  exists s, bare_safe s = true /\ lang re_oct12 s /\ ~ yaml_plain_ok s.
-
-Check C14_yaml_bare_refuted_document_end :
-  exists s, bare_safe s = true /\ doc_marker s = true /\ ~ yaml_plain_ok s.
+  forall s, bare_safe s = true -> yaml_plain_ok s.
 
 Check C14_yaml_quoted_ok :
   forall bs, Forall (fun b => b < 256) bs ->
   exists out, escape bs = Some out /\ dq_read yaml_dialect out = Some bs.
 
 Check C14_toml_bare_sound :
-  forall s, bare_allowed s = true -> s <> [] -> toml_bare_key s.
-
-Check C14_toml_bare_refuted :
-  exists s, bare_allowed s = true /\ ~ toml_bare_key s.
+  forall s, bare_allowed s = true -> toml_bare_key s.
 
 Check C14_toml_bare_complete :
   forall s, toml_bare_key s -> bare_allowed s = true.
 
 Check C14_toml_quoted_ok :
-  forall bs, Forall (fun b => b < 256 /\ b <> 127) bs ->
-  exists out, escape bs = Some out /\ dq_read toml_dialect out = Some bs.
-
-Check C14_toml_quoted_refuted :
-  exists bs out, escape bs = Some out /\ dq_read toml_dialect out = None.
+  forall bs, Forall (fun b => b < 256) bs -> dq_read toml_dialect (tesc bs) = Some bs.
 
 Check C14_python_literal :
   forall bs, Forall (fun b => b < 256) bs ->
@@ -65,12 +52,10 @@ Check C14_toml_top_must_be_object :
 Check C14_xml_shape_is_jsonml :
   forall v, jsonml_of v = None <-> is_jsonml v = false.
 
-
 (* definitions pinned by computation; also the non-vacuity witnesses of the theorems above *)
 (* "key" "a-b" "v1.2.3" "-x" are emitted bare and are plain strings *)
 Check eq_refl : map bare_safe [[107;101;121]; [97;45;98]; [118;49;46;50;46;51]; [45;120]] = [true; true; true; true].
 Check eq_refl : map yaml_plain_okb [[107;101;121]; [97;45;98]; [118;49;46;50;46;51]; [45;120]] = [true; true; true; true].
-Check eq_refl : map known_yaml_bare [[107;101;121]; [48;111;55]; [46;46;46]] = [false; true; true].
 (* yes No ON null ~ .inf 1_000 0x1F 1e3 2001-12-14 1:30 << "" - --- are not *)
 Check eq_refl : map bare_safe [[121;101;115]; [78;111]; [79;78]; [110;117;108;108]; [126]; [46;105;110;102]; [49;95;48;48;48];
                                [48;120;49;70]; [49;101;51]; [50;48;48;49;45;49;50;45;49;52]; [49;58;51;48]; [60;60]; []; [45]; [45;45;45]]
@@ -78,12 +63,13 @@ Check eq_refl : map bare_safe [[121;101;115]; [78;111]; [79;78]; [110;117;108;10
 Check eq_refl : map yaml_plain_okb [[121;101;115]; [78;111]; [49;95;48;48;48]; [48;120;49;70]; [49;101;51]; [50;48;48;49;45;49;50;45;49;52];
                                     [49;58;51;48]; [60;60]; [48;111;55]; [46;46;46]; [48;98;49]; [49;57;48;58;50;48;58;51;48]; [46;53]]
                  = [false; false; false; false; false; false; false; false; false; false; false; false; false].
-(* the findings, on the model *)
-Check eq_refl : bare_safe [48;111;55] = true.
-Check eq_refl : bare_safe [46;46;46] = true.
-Check eq_refl : tkey [] = [].
+(* the former findings, on the model: 0o7 and ... quoted, 0o8 / 0o / -0o7 are not octal and stay bare; empty TOML key quoted; DEL escaped *)
+Check eq_refl : map bare_safe [[48;111;55]; [48;111;49;55]; [46;46;46]; [48;111;56]; [48;111]; [45;48;111;55]] = [false; false; false; true; true; true].
+Check eq_refl : tkey [] = [34;34].
+Check eq_refl : tesc [97;127] = [34;97;92;117;48;48;55;102;34].
+Check eq_refl : dq_read toml_dialect (tesc [97;127]) = Some [97;127].
 Check eq_refl : dq_read toml_dialect (esc [97;127]) = None.
-Check eq_refl : dq_read toml_dialect (esc [97;34;10;1;195;169]) = Some [97;34;10;1;195;169].
+Check eq_refl : dq_read toml_dialect (tesc [97;34;10;1;195;169]) = Some [97;34;10;1;195;169].
 Check eq_refl : dq_read python_dialect (esc [97;127;0;92]) = Some [97;127;0;92].
 Check eq_refl : xml_escape_impl [97;60;38;62;34;39;98] = Some [97;38;108;116;59;38;97;109;112;59;38;103;116;59;38;113;117;111;116;59;38;97;112;111;115;59;98].
 Check eq_refl : xml_unescape [38;108;116;59;38;120] = None.
